@@ -51,6 +51,15 @@ def run(chk, repo: Repo):
 
 
 # ------------------------------------------------------------------------------------------------ R1
+KEEP = {"_BuildTree", "_Leapfrog", "_Kfun", "_nuts_target", "_FindGoodEpsilon", "_print_progress", "_call_callback"}
+
+
+def _views(repo, ci, fn):
+    """the function as written and its normal form (private helpers other than the NUTS building blocks inlined, temporaries substituted)"""
+    from .common import canon_keep
+    return [fn, canon_keep(repo, ci, fn, KEEP, subst=True)]
+
+
 def _leapfrog(chk, repo, ci):
     fn = repo.method(ci, "_Leapfrog")[1]
     p_old, r_old, g_old, eps = func_params(fn)[1:5]
@@ -122,14 +131,19 @@ def _leapfrog(chk, repo, ci):
 
 # ------------------------------------------------------------------------------------------------ R2 / R3
 def _buildtree(chk, repo, ci):
-    fn = repo.method(ci, "_BuildTree")[1]
+    from .common import best_of
+    src = repo.method(ci, "_BuildTree")[1]
+    best_of(chk, _views(repo, ci, src), lambda t, v: _buildtree_on(t, repo, ci, v, src))
+
+
+def _buildtree_on(chk, repo, ci, fn, src):
     g = CFG(fn)
     inst = f"{ci.qual}._BuildTree"
     P = func_params(fn)
     if len(P) < 9:
         raise AnchorError(f"{inst}: signature changed")
     B0 = dict(zip(["x0", "r0", "g0", "H", "U", "V", "J", "E"], P[1:9]))
-    base_t = [t for t in g.tests() if _norm(t.ast) == f"{B0['J']}==0"]
+    base_t = [t for t in g.tests() if _norm(t.ast) in (f"{B0['J']}==0", f"0=={B0['J']}")]
     if len(base_t) != 1:
         raise AnchorError(f"{inst}: base-case test j == 0 not found")
     bt = base_t[0]
@@ -160,7 +174,8 @@ def _buildtree(chk, repo, ci):
         # alpha' = min(1, exp(H' - H))
         ok = False
         for pats in (["$dH=$H1-$H", "$a1=1 if $dH>0 else np.exp($dH)"], ["$dH=$H1-$H", "$a1=1 if $dH>=0 else np.exp($dH)"], ["$dH=$H1-$H", "$a1=min(1,np.exp($dH))"],
-                     ["$a1=min(1,np.exp($H1-$H))"]):
+                     ["$a1=min(1,np.exp($H1-$H))"], ["$a1=1 if 0<$H1-$H else np.exp($H1-$H)"], ["$a1=1 if 0<=$H1-$H else np.exp($H1-$H)"],
+                     ["$dH=$H1-$H", "$a1=1 if 0<$dH else np.exp($dH)"], ["$dH=$H1-$H", "$a1=1 if 0<=$dH else np.exp($dH)"]):
             bb, _ = unify(pats, base, b)
             if bb is not None:
                 b, ok = bb, True
@@ -171,26 +186,26 @@ def _buildtree(chk, repo, ci):
         dm = b.get("Dmax")
         if dm not in d or not (isinstance(d[dm], ast.Constant) and isinstance(d[dm].value, (int, float)) and d[dm].value >= 100):
             problems.append("Delta_max is not a parameter with a large positive default")
-    chk.add("C08-R2", inst + "/leaf", not problems, site(repo, bt.ast), "leaf quantities as in Hoffman & Gelman Alg. 6", "; ".join(problems), fn)
+    chk.add("C08-R2", inst + "/leaf", not problems, site(repo, src), "leaf quantities as in Hoffman & Gelman Alg. 6", "; ".join(problems), src)
 
     # ---- recursion
     rec = region("F")
     problems = []
     need = ["x1", "l1", "g1", "n1", "s1", "a1", "na1", "xm", "rm", "gm", "xp", "rp", "gp"]
     if any(k not in b for k in need):
-        chk.fail("C08-R3", inst + "/recursion", site(repo, bt.ast), "leaf bindings incomplete; recursion not analysed", fn)
+        chk.fail("C08-R3", inst + "/recursion", site(repo, src), "leaf bindings incomplete; recursion not analysed", src)
         return
     first = unify(["$xm,$rm,$gm,$xp,$rp,$gp,$x1,$l1,$g1,$n1,$s1,$a1,$na1=self._BuildTree($x0,$r0,$g0,$H,$U,$V,$J-1,$E)"], rec, b)
     if first[0] is None:
         problems.append("first subtree is not built from the given state with depth j-1 and bound to the same 13 result names as the leaf")
-    s_t = [t for t in g.tests() if _norm(t.ast) == f"{b['s1']}==1" and g.requires_edge(t, bt, "F")]
+    s_t = [t for t in g.tests() if _norm(t.ast) in (f"{b['s1']}==1", f"1=={b['s1']}") and g.requires_edge(t, bt, "F")]
     if len(s_t) != 1:
-        chk.fail("C08-R3", inst + "/recursion", site(repo, bt.ast), "the second subtree is built although the first one may already have stopped "
-                 "(no `s' == 1` guard in the recursion): states beyond a U-turn/divergence are counted and can be selected", fn)
+        chk.fail("C08-R3", inst + "/recursion", site(repo, src), "the second subtree is built although the first one may already have stopped "
+                 "(no `s' == 1` guard in the recursion): states beyond a U-turn/divergence are counted and can be selected", src)
         return
     st = s_t[0]
     inner = [(t, a) for (t, a) in rec if g.requires_edge(g.stmt_node_containing(a) if not isinstance(a, ast.expr) else g.node_of(a), st, "T")]
-    vt = [t for t in g.tests() if _norm(t.ast) == f"{b['V']}==-1" and g.requires_edge(t, st, "T")]
+    vt = [t for t in g.tests() if _norm(t.ast) in (f"{b['V']}==-1", f"-1=={b['V']}") and g.requires_edge(t, st, "T")]
     if len(vt) != 1:
         problems.append("direction test v == -1 not found under the guard")
     else:
@@ -219,6 +234,14 @@ def _buildtree(chk, repo, ci):
             if bb is not None:
                 sel = (bb, used)
                 break
+        if sel is None:     # the probability is written directly in the test (no temporary)
+            for form in ("if: np.random.rand()<=$n2/max(1,$n1+$n2)", "if: np.random.rand()<$n2/max(1,$n1+$n2)", "if: np.random.rand()<=$n2/max($n1+$n2,1)"):
+                bb, used = unify([form], inner, b)
+                if bb is not None:
+                    bb = dict(bb)
+                    bb["p"] = None
+                    sel = (bb, [used[0], used[0]])
+                    break
         if sel is None:
             cand = find("$p=$n2/$den", inner, b)
             cand2 = [(bb, nd) for pat in ("$p=$rhs",) for bb, nd in [] ]
@@ -229,12 +252,18 @@ def _buildtree(chk, repo, ci):
             # n' must not have been increased before the probability is computed
             from ..cfg import ReachingDefs
             rd = ReachingDefs(g)
-            pn = g.stmt_node_containing(used[0])
+            pn = g.stmt_node_containing(used[0]) if not isinstance(used[0], ast.expr) else g.node_of(used[0])
             for dnode in rd.reaching(pn, b["n1"]):
-                if isinstance(g.nodes[dnode].ast, ast.AugAssign):
+                da = g.nodes[dnode].ast
+                if isinstance(da, ast.AugAssign) or (isinstance(da, ast.Assign) and isinstance(da.targets[0], ast.Name) and b.get("n2") and b["n2"] in _norm(da.value)):
                     problems.append("n' is increased before the selection probability is computed")
             seltest = g.node_of(used[1].test) if isinstance(used[1], ast.If) else None
-            if seltest is None:
+            if seltest is None and isinstance(used[1], ast.expr):
+                try:
+                    seltest = g.node_of(used[1])
+                except Exception:
+                    seltest = None
+            if seltest is None and b.get("p"):
                 tests = [t for t in g.tests() if _norm(t.ast) in (f"np.random.rand()<={b['p']}", f"np.random.rand()<{b['p']}")]
                 seltest = tests[0] if tests else None
             if seltest is not None:
@@ -243,13 +272,29 @@ def _buildtree(chk, repo, ci):
                 alt = {w.replace("np.copy(", "").replace(")", ".copy()") for w in want}
                 if chosen != want and chosen != alt:
                     problems.append(f"selected candidate is not installed as the copied triple {sorted(want)} (found {sorted(chosen)})")
-        upd = ["$a1+=$a2", "$na1+=$na2", "$n1+=$n2", "$span=$xp-$xm"]
-        bb, fail = unify(upd, inner, b)
-        if bb is None:
-            problems.append(f"recursion: accumulation `{upd[fail]}` missing under the guard")
-        else:
+        upd = ["$a1+=$a2", "$na1+=$na2", "$n1+=$n2"]
+        bb = b
+        for u in upd:       # `x += y` or the rebinding `x = x + y` (the quantities are numbers)
+            lhs, rhs = u.split("+=")
+            nb = None
+            for form in (u, f"{lhs}={lhs}+{rhs}", f"{lhs}={rhs}+{lhs}"):
+                nb, _ = unify([form], inner, bb)
+                if nb is not None:
+                    break
+            if nb is None:
+                problems.append(f"recursion: accumulation `{u}` missing under the guard")
+                bb = None
+                break
+            bb = nb
+        if bb is not None:
             b = bb
-            ok = unify(["$s1=$s2*int($span@$rm.T>=0)*int($span@$rp.T>=0)"], inner, b)[0] is not None
+            ok = False
+            for pats in (["$span=$xp-$xm", "$s1=$s2*int($span@$rm.T>=0)*int($span@$rp.T>=0)"], ["$span=$xp-$xm", "$s1=$s2*int(0<=$span@$rm.T)*int(0<=$span@$rp.T)"],
+                         ["$s1=$s2*int(0<=($xp-$xm)@$rm.T)*int(0<=($xp-$xm)@$rp.T)"], ["$s1=$s2*int(($xp-$xm)@$rm.T>=0)*int(($xp-$xm)@$rp.T>=0)"],
+                         ["$s1=$s2*(int(($xp-$xm)@$rm.T>=0)*int(($xp-$xm)@$rp.T>=0))"], ["$s1=$s2*(int(0<=($xp-$xm)@$rm.T)*int(0<=($xp-$xm)@$rp.T))"]):
+                if unify(pats, inner, b)[0] is not None:
+                    ok = True
+                    break
             if not ok:
                 sp = [t for t, a in inner if t.startswith(b["s1"] + "=")]
                 problems.append(f"U-turn/stop indicator is `{sp}`, not s'' * [span.r_minus >= 0] * [span.r_plus >= 0]")
@@ -257,12 +302,17 @@ def _buildtree(chk, repo, ci):
     want_ret = "(" + ",".join(b.get(k, "?") for k in ["xm", "rm", "gm", "xp", "rp", "gp", "x1", "l1", "g1", "n1", "s1", "a1", "na1"]) + ")"
     if len(rets) != 1 or _norm(rets[0].ast.value) != want_ret:
         problems.append("the 13 results are not returned in the order the callers unpack them")
-    chk.add("C08-R3", inst + "/recursion", not problems, site(repo, st.ast), "doubling recursion as in Hoffman & Gelman Alg. 6", "; ".join(problems), fn)
+    chk.add("C08-R3", inst + "/recursion", not problems, site(repo, src), "doubling recursion as in Hoffman & Gelman Alg. 6", "; ".join(problems), src)
 
 
 # ------------------------------------------------------------------------------------------------ R4
 def _transition(chk, repo, ci, iface):
-    fn = repo.method(ci, "step" if iface == "exp" else "_sample")[1]
+    from .common import best_of
+    src = repo.method(ci, "step" if iface == "exp" else "_sample")[1]
+    best_of(chk, _views(repo, ci, src), lambda t, v: _transition_on(t, repo, ci, iface, v, src))
+
+
+def _transition_on(chk, repo, ci, iface, fn, src):
     g = CFG(fn)
     inst = f"{ci.qual}.{fn.name}"
     problems = []
@@ -287,7 +337,8 @@ def _transition(chk, repo, ci, iface):
     loops = [n for n in ast.walk(fn) if isinstance(n, ast.While)]
     lb = None
     for w in loops:
-        m = find("while: $s==1 and $j<=self.max_depth", [("while: " + _norm(w.test), w)])
+        m = find("while: $s==1 and $j<=self.max_depth", [("while: " + _norm(w.test), w)]) or \
+            find("while: $s==1 and self.max_depth>=$j", [("while: " + _norm(w.test), w)])
         if m:
             lb = m[0][0]
             wl = w
@@ -326,12 +377,25 @@ def _transition(chk, repo, ci, iface):
             if bb is not None:
                 acc = (bb, used)
                 break
+        direct = None
+        if acc is None:     # probability written directly in the test
+            for form in (["if: $s1==1", "if: np.random.rand()<=min(1,$n1/$n)"], ["if: $s1==1", "if: np.random.rand()<min(1,$n1/$n)"]):
+                bb, used = unify(form, body, b)
+                if bb is not None:
+                    bb = dict(bb)
+                    bb["p"] = None
+                    acc = (bb, [used[1], used[0], used[1]])
+                    direct = used[1]
+                    break
         if acc is None:
             problems.append("top-level acceptance is not `s' == 1 and U <= min(1, n'/n)`")
         else:
             b, used = acc
-            sp_t = [t for t in g.tests() if _norm(t.ast) == f"{b['s1']}==1"]
-            acc_t = [t for t in g.tests() if _norm(t.ast) in (f"np.random.rand()<={b['p']}", f"np.random.rand()<{b['p']}")]
+            sp_t = [t for t in g.tests() if _norm(t.ast) in (f"{b['s1']}==1", f"1=={b['s1']}")]
+            if direct is not None:
+                acc_t = [t for t in g.tests() if t.ast is direct]
+            else:
+                acc_t = [t for t in g.tests() if _norm(t.ast) in (f"np.random.rand()<={b['p']}", f"np.random.rand()<{b['p']}")]
             acc_nodes = [n for n in g.nodes if n.ast is not None and n.kind == "stmt" and g.requires_edge(n, acc_t[0], "T")]
             acc_txt = {_norm(n.ast) for n in acc_nodes}
             if iface == "exp":
@@ -365,18 +429,25 @@ def _transition(chk, repo, ci, iface):
                     chk.note(f"C08-R4 {inst}: NaN states abort the run (raise after the iteration); -inf candidates cannot be selected because they are "
                              f"outside the slice (n' = 0 for H' = -inf) — sibling divergence from the experimental guard, tabled")
             # counters after the test, within one iteration
-            bb, used = unify(["$n+=$n1", "$span=$xp-$xm", "$s=$s1*int($span@$rm.T>=0)*int($span@$rp.T>=0)", "$j+=1"], body, b)
+            bb = None
+            for pats in (["$n+=$n1", "$span=$xp-$xm", "$s=$s1*int($span@$rm.T>=0)*int($span@$rp.T>=0)", "$j+=1"],
+                         ["$n+=$n1", "$s=$s1*int(($xp-$xm)@$rm.T>=0)*int(($xp-$xm)@$rp.T>=0)", "$j+=1"],
+                         ["$n+=$n1", "$s=$s1*(int(($xp-$xm)@$rm.T>=0)*int(($xp-$xm)@$rp.T>=0))", "$j+=1"],
+                         ["$n+=$n1", "$s=$s1*int(0<=($xp-$xm)@$rm.T)*int(0<=($xp-$xm)@$rp.T)", "$j+=1"]):
+                bb, used = unify(pats, body, b)
+                if bb is not None:
+                    break
             if bb is None:
                 problems.append("after the acceptance test the loop does not update n += n', s = s' * [span.r_minus >= 0] * [span.r_plus >= 0], j += 1")
             else:
                 b = bb
                 cnt = g.stmt_node_containing(used[0])
-                pnode = [n for n in g.nodes if n.ast is not None and n.kind == "stmt" and _norm(n.ast).startswith(b["p"] + "=min(1,")]
+                pnode = [n for n in g.nodes if n.ast is not None and n.kind == "stmt" and _norm(n.ast).startswith(b["p"] + "=min(1,")] if b.get("p") else [(sp_t or acc_t)[0]]
                 if not pnode or not g.dominates(pnode[0], cnt) or not g.reaches(acc_t[0], cnt):
                     problems.append("n is increased before the acceptance probability is computed / the test is made")
             if iface == "exp" and f"self._current_alpha_ratio={b.get('al')}/{b.get('nal')}" not in {t for t, a in body}:
                 problems.append("tuning statistic is not alpha / n_alpha of the last doubling")
-    chk.add("C08-R4", inst, not problems, site(repo, fn), "slice, doubling loop, accept guard, paired cache update, counters", "; ".join(problems), fn)
+    chk.add("C08-R4", inst, not problems, site(repo, src), "slice, doubling loop, accept guard, paired cache update, counters", "; ".join(problems), src)
 
 
 # ------------------------------------------------------------------------------------------------ R5
@@ -392,7 +463,24 @@ def _dual_averaging(chk, repo, ci, iface):
         b, fail = unify(pats, S)
         extra = []
         if b is None:
-            extra.append(f"dual-averaging update `{pats[fail]}` not found")
+            # the same update spelled with other temporaries: compare the fully expanded values the three attributes end up with
+            from ..flow import Expander
+            ex = Expander(fn)
+            k = f"({uc}+1)"
+            H = f"(1-1/({uc}+1+10))*self._H_bar+1/({uc}+1+10)*(self.opt_acc_rate-self._current_alpha_ratio)"
+            eps = f"np.exp(self._mu-np.sqrt({uc}+1)/0.05*({H}))"
+            ebar = f"np.exp(({uc}+1)**(-0.75)*np.log({eps})+(1-({uc}+1)**(-0.75))*np.log(self._epsilon_bar))"
+            want = {"self._H_bar": H, "self._epsilon": eps, "self._epsilon_bar": ebar}
+            for attr, w in want.items():
+                asg = [n for n in ex.cfg.nodes if n.kind == "stmt" and isinstance(n.ast, ast.Assign) and path_of(n.ast.targets[0]) == attr]
+                if len(asg) != 1:
+                    extra.append(f"`{attr}` is assigned {len(asg)} times in tune")
+                    continue
+                got = _norm(ast.parse(unparse(ex.expand(asg[0].ast.value, asg[0])), mode="eval").body)
+                if got != _norm(ast.parse(w, mode="eval").body):
+                    extra.append(f"dual-averaging update of `{attr}` is `{unparse(ex.expand(asg[0].ast.value, asg[0]))[:160]}`, not the documented "
+                                 f"recursion (H_bar <- (1-1/(m+t0)) H_bar + (delta - alpha)/(m+t0); eps <- exp(mu - sqrt(m)/gamma H_bar); "
+                                 f"eps_bar <- exp(m^-kappa log eps + (1-m^-kappa) log eps_bar))")
         init = repo.method(ci, "_initialize")[1]
         ti = _norm(init)
         if "self._mu=np.log(10*self._epsilon)" not in ti:
